@@ -249,6 +249,8 @@ var tblSenderProcess = &tableSpec{
 		{`util\.UnmarshalChain\([^()]*\)`, "decode"},
 		{`param:w\.plugins\[[^\]]*\]`, "plugin"},
 		{`^Plugin\.Enqueue\(.*\)$`, "accepted"},
+		// the resolved receiver: the variable, or whatever helper was handed the two decoded forms
+		{`^\((?:\w+\.)?\w+\(var:logicalRecv,var:physicalRecv\) == nil\)$`, "(var:recv == nil)"},
 		// whatever produced the body (inline json.Marshal, or a helper of any name): its error
 		{`^\((?:var:err|err\(.*\)) == nil\)$`, "(encode == nil)"},
 	},
@@ -267,4 +269,36 @@ var tblSenderProcess = &tableSpec{
 			return "error-completion"
 		}
 		return "handed-to-plugin"
+	}}
+
+// tblApiProcess (C12/C13/C15): what the shared API helper makes of the kernel's completion entry:
+// an entry with an error is a server error (its Completion is nil and must not be touched), an
+// unsuccessful status a request error, anything else the completion itself.
+var tblApiProcess = &tableSpec{
+	Name: "api-process", Pkg: pkgSubApi, Recv: "API", Func: "Process", MinPaths: 3,
+	Rename: [][2]string{
+		{`^\(.*DequeueCQE\(.*\)\.Error == nil\)$`, "(cqe.Error == nil)"},
+		{`^.*IsSuccessful\(\)$`, "successful"},
+	},
+	Why: "C15: a completion entry carrying an error is rendered as a server error (its completion is nil), an unsuccessful status as a request error, otherwise the completion is handed to the front end",
+	Outcome: func(pk *packages.Package, env *provEnv, self types.Object, p *codePath) string {
+		if p.Ret == nil || len(p.Ret.Results) != 2 {
+			return "?"
+		}
+		if call, ok := ast.Unparen(p.Ret.Results[1]).(*ast.CallExpr); ok {
+			return "error:" + calleeNameOf(pk.TypesInfo, call)
+		}
+		if exprString(p.Ret.Results[1]) == "nil" && exprString(p.Ret.Results[0]) != "nil" {
+			return "completion"
+		}
+		return "?"
+	},
+	Spec: func(v *valuation) string {
+		if !v.B("(cqe.Error == nil)") {
+			return "error:api.ServerError"
+		}
+		if !v.B("successful") {
+			return "error:api.RequestError"
+		}
+		return "completion"
 	}}
